@@ -79,6 +79,46 @@ pub fn run(input: &Value) -> Value {
         };
         json!({"range": dep.includes(pos(&op["p"])).map(|r| json!([[r.range.start.line, r.range.start.character], [r.range.end.line, r.range.end.character]]))})
       }
+      "v1_upgrade" => {
+        // through the public API: an old-format dependency with leading comments is upgraded by module_graph_1_to_2
+        let comments: Vec<Value> = op["comments"]
+          .as_array()
+          .unwrap()
+          .iter()
+          .map(|c| json!({"text": c["text"], "range": [{"line": c["range"][0][0], "character": c["range"][0][1]}, {"line": c["range"][1][0], "character": c["range"][1][1]}]}))
+          .collect();
+        let mut info = json!({"dependencies": [{"type": "static", "kind": "import", "specifier": "./a.js",
+          "specifierRange": [[0, 0], [0, 1]], "leadingComments": comments}]});
+        deno_graph::analysis::module_graph_1_to_2(&mut info);
+        match info["dependencies"][0].get("typesSpecifier") {
+          Some(t) => json!({"range": [[t["range"][0][0], t["range"][0][1]], [t["range"][1][0], t["range"][1][1]]]}),
+          None => json!({"range": null}),
+        }
+      }
+      #[cfg(feature = "fast_check")]
+      "analyze_pragma" => {
+        // through the public API: a source whose `@deno-types` pragma comment starts at a chosen byte offset, with multi-byte
+        // characters before the comment (m) and inside the specifier (k), analysed by the real parser-based analyzer
+        let g = |k: &str| op[k].as_u64().unwrap() as usize;
+        let spec = format!("{}{}", "\u{e9}".repeat(g("k")), "x".repeat(g("n")));
+        let source = format!(
+          "{}/*{}{}*/// @deno-types=\"{}\"\nimport \"./a.js\";\n",
+          "\n".repeat(g("ln")), "\u{e9}".repeat(g("m")), "a".repeat(g("a")), spec
+        );
+        let analyzer = deno_graph::ast::ParserModuleAnalyzer::default();
+        let info = analyzer
+          .analyze_sync(&ModuleSpecifier::parse("file:///m.ts").unwrap(), source.into(), MediaType::TypeScript)
+          .unwrap();
+        let mut out = json!({"range": null});
+        for d in &info.dependencies {
+          if let deno_graph::analysis::DependencyDescriptor::Static(s) = d {
+            if let Some(t) = &s.types_specifier {
+              out = json!({"range": [[t.range.start.line, t.range.start.character], [t.range.end.line, t.range.end.character]], "text": t.text});
+            }
+          }
+        }
+        out
+      }
       o => json!({"error": format!("unknown op {o}")}),
     });
   }
